@@ -1,14 +1,15 @@
 SPECIFICATION Spec
 CONSTANTS
   Family = "read"
-  NTs = 4
-  NFiles = 2
+  NTs = 3
+  NFiles = 3
   NKeys = 1
   MaxBlocks = 2
   TombMode = "one"
   KeyMode = "full"
   MaxLen = 0
   PPBs <- PPBSmall
-  Picks <- NoPicks
+  NPicks = 0
+  PickAt <- NoPick
 INVARIANTS LWWIsFold ReadLemmas
 CHECK_DEADLOCK FALSE
